@@ -371,6 +371,83 @@ class Text(Op):
         return "rtext/%s/fmt%d" % (a[0], dict(a[2])["fmt"])
 
 
+class EqHashForms(Op):
+    """Equal recurrences whose anchors are SPELLED differently - decimal hours / decimal minutes / h:m:s, calendar /
+    ordinal / week date, another UTC offset - are equal and hash equally (and land in one set / dict entry).  Dyadic
+    fractions (quarter hours, half minutes), so every spelling denotes exactly the same instant in binary64."""
+    prop = PROP
+    name = "reqforms"
+    model = False
+
+    def gen(self, rng, tier, boost):
+        from fractions import Fraction as F
+        for _ in range(300 * boost if tier == "quick" else 3000 * boost):
+            m = gens.mode(rng)
+            anchor = R.gen_anchor(rng, m)
+            if not 2 <= anchor[1] <= 9000:
+                continue
+            # an instant on a half minute or a quarter hour
+            base = T.inst(m, anchor)
+            base -= base % 900
+            form = rng.choice(["m", "m", "h"])
+            extra = rng.choice([30, 90, 450]) if form == "m" else rng.choice([900, 1800, 2700])
+            total = base + extra
+            zones = [(0, 0), (0, 0), (anchor[7], anchor[8])] if form == "m" else [(0, 0), (1, 0), (-3, 0)]
+            za = rng.choice(zones)
+            zb = rng.choice([(0, 0), (5, 0), (-8, 0), za]) if form == "h" else rng.choice([(0, 0), (5, 30), (-3, -30), za])
+            yield (m, total, form, rng.choice("ccow"), za, rng.choice("cow"), zb,
+                   rng.choice([None, 2, 5]), rng.choice([3600, 86400, 1800, 7 * 86400]), rng.choice([3, 4]))
+
+    def line(self, a):
+        return "reqforms %s inst=%d form=%s repA=%s zoneA=%r repB=%s zoneB=%r reps=%s step=%ds fmt%d" % a
+
+    def points(self, a):
+        from fractions import Fraction as F
+        import qcommon as Q
+        m, total, form, ra, za, rb, zb, reps, step, fmt = a
+
+        def spell(rep, z, fm):
+            local = total + 3600 * z[0] + 60 * z[1]
+            sod = local % 86400                                             # the time of day, exactly
+            t = T.tp_from_inst(m, total - (sod % 60), rep, z[0], z[1])      # whole minute: the date fields
+            if fm == "s":
+                return Q.mk_point((t[0], t[1], t[2], t[3], F(sod // 3600), F(sod % 3600 // 60), F(sod % 60), z[0], z[1]))
+            if fm == "m":
+                return Q.mk_point((t[0], t[1], t[2], t[3], F(sod // 3600), F(sod % 3600, 60), None, z[0], z[1]))
+            return Q.mk_point((t[0], t[1], t[2], t[3], F(sod, 3600), None, None, z[0], z[1]))
+        return spell(ra, za, form), spell(rb, zb, "s")
+
+    def impl(self, a):
+        from metomi.isodatetime.data import TimeRecurrence, Duration
+        m, total, form, ra, za, rb, zb, reps, step, fmt = a
+        set_mode(m)
+        pa, pb = self.points(a)
+        d = Duration(seconds=step)
+        if fmt == 3:
+            r1 = TimeRecurrence(repetitions=reps, start_point=pa, duration=d)
+            r2 = TimeRecurrence(repetitions=reps, start_point=pb, duration=d)
+        else:
+            r1 = TimeRecurrence(repetitions=reps, duration=d, end_point=pa)
+            r2 = TimeRecurrence(repetitions=reps, duration=d, end_point=pb)
+        problems = []
+        if not (pa == pb) or hash(pa) != hash(pb):
+            problems.append("the anchors %s and %s: == %s, hashes %s" % (pa, pb, pa == pb, "equal" if hash(pa) == hash(pb) else "differ"))
+        if not (r1 == r2 and r2 == r1):
+            problems.append("%s != %s" % (r1, r2))
+        if hash(r1) != hash(r2):
+            problems.append("hash(%s) != hash(%s)" % (r1, r2))
+        if len({r1, r2}) != 1:
+            problems.append("a set keeps both")
+        return "ok" if not problems else "PROBLEMS " + "; ".join(problems)
+
+    def oracle(self, a, out):
+        if out != "ok":
+            return "%s: %s" % (self.line(a), out)
+
+    def label(self, a):
+        return "reqforms/%s/%s/%s" % (a[0], a[2], a[3])
+
+
 class TextTiny(Op):
     """The text round trip for intervals with a very small or long-fraction time component (hours, minutes or seconds
     below 1e-4, which str() prints in exponent notation; fractions with 7+ digits): parse(str(r)) == r with the same
@@ -431,6 +508,6 @@ def ops():
     import common
     common.foreign_configurations()
     import recmm
-    return [Shift(), Eq(), HashEq(), Text(), TextTiny(),
+    return [Shift(), Eq(), HashEq(), EqHashForms(), Text(), TextTiny(),
             recmm.RecMMOp(PROP, "mmvalue", ["mmrshift", "mmreq", "mmreq", "mmrhasheq"], 500),
             __import__("rectextops").RecTextOp()]
